@@ -110,7 +110,9 @@ def opScan (j : Json) : Except String Json := do
     | .ok (.arr a) => a.toList.filterMap fun x => x.getStr?.toOption.map String.toList
     | _ => []
   let nm : NosecMap := if ignoreNosec then [] else
-    comments.map fun (ln, t) => (ln, Nosec.parse Gen.charClasses Gen.registry t)
+    -- `nosec_lines[lineno] = …` is a dict assignment: a later comment token on the same line replaces an earlier one
+    -- (two comment tokens on one line happen when `tokenize` does not end the line at a lone CR); `NosecMap.get` takes the first entry
+    comments.reverse.map fun (ln, t) => (ln, Nosec.parse Gen.charClasses Gen.registry t)
   let strs (j : Json) (k : String) : List Str := match j.getObjVal? k with
     | .ok (.arr a) => a.toList.filterMap fun x => x.getStr?.toOption.map String.toList
     | _ => []
